@@ -12,6 +12,7 @@ import numpy as np
 
 from AegeanTools.regions import Region
 from vlib import regionlib as rl
+from vlib.core import workdir
 
 
 class SkipOp(Exception):
@@ -39,7 +40,7 @@ class History(object):
 
     def tmpdir(self):
         if self.tmp is None:
-            self.tmp = tempfile.mkdtemp(prefix="reghist_")
+            self.tmp = workdir("reghist_")
         return self.tmp
 
     def close(self):
